@@ -19,6 +19,9 @@ import ast
 FULL = ('sl', None, None, None)
 
 
+OUTPUT_ONLY = {'print', 'disp', 'dispa', 'progressBar'}
+
+
 class Unsupported(Exception):
     pass
 
@@ -356,6 +359,9 @@ class Normalizer:
         if isinstance(st, ast.Expr):
             if isinstance(st.value, ast.Constant):
                 return
+            if isinstance(st.value, ast.Call) and isinstance(st.value.func, ast.Name) and st.value.func.id in OUTPUT_ONLY \
+                    and st.value.func.id not in env:
+                return          # N21: console output (print / disp) is not part of the compared behaviour
             env['$eff'] = ('eff', env['$eff'], self.expr(st.value, env))
             return
         if isinstance(st, ast.Pass):
